@@ -311,6 +311,13 @@ def rule_null(ctx, rep):
                     if ouses and all(u[0] == "other" for u in ouses) and _match_none_diverges(F, b, B, seen):
                         rep.ok("R-NULL", ik, "null test consumed by a `match` whose `None` arm ends in the allocation-error path", cfg=tag)
                         continue
+                    # `NonNull::new(alloc(..))?` in a function returning Option/Result: the failure travels to the callers
+                    if ouses and all(u[0] == "callarg" and model.classify(_callee(u[1]) or "")[0] == model.TRY_BRANCH for u in ouses):
+                        if _callers_diverge_on_err(F, E, A, b["key"]):
+                            rep.ok("R-NULL", ik, "null test propagated with `?`; every caller routes the failure to the allocation-error path", cfg=tag)
+                        else:
+                            rep.bad("R-NULL", ik, "an allocation failure is propagated to the callers but one of them does not route it to the allocation-error path", F.loc(b, t["span"]), tag)
+                        continue
                     allowed = ("<core::option::Option<T>>::ok_or", "<core::option::Option<T>>::ok_or_else", "<core::option::Option<T>>::unwrap_or_else", "<core::option::Option<T>>::expect", "<core::option::Option<T>>::unwrap")
                     if not ouses or any(u[0] != "callarg" or _callee(u[1]) not in allowed for u in ouses):
                         good, why = False, "the Option produced by the null test is consumed by something other than a checking combinator"
@@ -373,7 +380,7 @@ def _uses(b, l):
     return out
 
 
-def _match_none_diverges(F, b, B, opt_locals):
+def _match_none_diverges(F, b, B, opt_locals, fail_value=0):
     """The Option held in one of `opt_locals` is consumed by a `match`: its discriminant is switched on and the `None` arm can only
     end in a diverging call (handle_alloc_error), never in a return."""
     for bi, bl in enumerate(b["blocks"]):
@@ -383,7 +390,9 @@ def _match_none_diverges(F, b, B, opt_locals):
         o = B.origin(t["discr"])
         if not (o.get("kind") == "rvalue" and o["rv"]["k"] == "discr" and o["rv"]["place"]["l"] in opt_locals and not o["rv"]["place"]["p"]):
             continue
-        none_tgts = [tg for v, tg in t["arms"] if v == 0]
+        none_tgts = [tg for v, tg in t["arms"] if v == fail_value]
+        if not none_tgts and len(t["arms"]) == 1 and t["arms"][0][0] != fail_value:
+            none_tgts = [t["otherwise"]]
         if len(none_tgts) != 1:
             return False
         reach = B.reach(none_tgts[0], normal_only=True)
@@ -427,8 +436,13 @@ def _callers_diverge_on_err(F, E, A, key):
             dl = t["dest"]["l"]
             ok = False
             for u in _uses(b, dl):
-                if u[0] == "callarg" and _callee(u[1]) == "<core::result::Result<T, E>>::unwrap_or_else" and _diverging_callable(F, E, u[1]):
+                if u[0] == "callarg" and _callee(u[1]) in ("<core::result::Result<T, E>>::unwrap_or_else", "<core::option::Option<T>>::unwrap_or_else") and _diverging_callable(F, E, u[1]):
                     ok = True
+            if not ok:
+                # `let Ok(p) = try_allocate(..) else { handle_alloc_error(layout) }` / `match .. { None => handle_alloc_error(..) }`
+                rt = F.ty(F.body(key)["output"]) if F.body(key) and "output" in F.body(key) else {}
+                fail = 0 if rt.get("path") == "core::option::Option" else 1
+                ok = _match_none_diverges(F, b, B, {dl}, fail_value=fail)
             if not ok:
                 return False
     return callers > 0
